@@ -359,10 +359,16 @@ def is_last_index(P, idx, base_id, depth=0):
     return False
 
 
+SENTINEL_LOOKUPS = ('snoopy_configfile_optionRegistry_getIdFromName', 'snoopy_configfile_optionRegistry_getOptionValueAsString',
+                    'snoopy_genericregistry_getIdFromName')
+
+
 def sentinel_rule(ctx, prog):
-    """the terminator row of the option table (empty name, NULL parser and printer) is never selected"""
+    """the terminator row of a name table (empty name; NULL / absent function pointers) is never selected:
+    wherever a lookup returns an index or calls through a row, the row's name has been found to differ from
+    "" since the index last changed"""
     chk = ctx.chk
-    for fname in ('snoopy_configfile_optionRegistry_getIdFromName', 'snoopy_configfile_optionRegistry_getOptionValueAsString'):
+    for fname in SENTINEL_LOOKUPS:
         f = prog.func(fname)
         if f is None:
             continue
@@ -378,32 +384,16 @@ def sentinel_rule(ctx, prog):
         ok = bool(uses)
         detail = 'no row selection found'
         for n, iv in uses:
-            # an edge "registry[i].name differs from the empty string" must dominate the use
-            dom = False
-            for b in f.blocks.values():
-                c = strip(b.cond) if b.cond is not None else None
-                if c is None or len(b.all_succs) != 2:
-                    continue
-                calls = [x for x in c.walk() if x.k == 'CallExpr' and x.get('callee') == 'strcmp' and
-                         any(strip(a).k == 'StringLiteral' and strip(a).get('s') == '' for a in x.ch[1:]) and
-                         any(y.k == 'DeclRefExpr' and y['ref'].get('id') == iv for y in x.walk())]
-                if not calls:
-                    continue
-                ce = common.compare_edges(b, lambda z: z is calls[0])
-                if ce is None:
-                    continue
-                v, eq, ne = ce
-                differ_edge = ne if v == 0 else eq
-                el = C.cfg_elem_of(f, n)
-                visited, _ = C.reach(f, (f.entry, 0), None, edge_filter=lambda bb, si, b=b, d=differ_edge: not (bb.id == b.id and si == d))
-                if el.id not in visited:
-                    dom = True
-            if not dom:
+            mentions = lambda x, iv=iv: any(y.k == 'DeclRefExpr' and y['ref'].get('id') == iv for y in x.walk())
+            g = common.guarded_at(f, n, lambda blk: common.not_empty_string_edge(blk, mentions),
+                                  lambda e, iv=iv: common.modifies_var(e, iv))
+            if not g:
                 ok = False
-                detail = '%s can select the terminator row (empty name, NULL parser/printer): an empty option name ' \
-                         '("= x" in snoopy.ini) then calls a NULL function pointer' % render(n)[:50]
+                detail = '%s can select the terminator row (empty name, NULL or missing function pointer): an empty name ' \
+                         '("= x" in snoopy.ini, "%%{}" in a format, "output = :x", ";;" in a filter chain) then calls through ' \
+                         'a NULL / out-of-table pointer' % render(n)[:50]
         chk.ob('T1', 'sentinel-row-never-selected[%s]' % fname, ok, f.where(), fname, detail,
-               how='every row use is dominated by strcmp(registry[i].name, "") != 0')
+               how='every row use follows a test that the row name differs from "" for the current index')
 
 
 def quote_rule(ctx, prog):
